@@ -211,6 +211,7 @@ func Main[W any](t *testing.T, h Harness[W]) {
 }
 
 func execOne[W any](t *testing.T, h Harness[W], w W, cfg simrt.Config) Outcome {
+	cfg.Progress = Tick
 	if h.Tune != nil {
 		h.Tune(w, &cfg)
 	}
